@@ -268,6 +268,10 @@ def run(env):
     res = env.drive("perturb", cw.text())
     env.require_complete(res, "perturb")
     mr = env.pmap(monitor, res.sessions, workload="perturb")
+    from props.c13 import slice_text
+    res_f = env.drive("perturb", slice_text(cw.text(), env.seed % 4, 4) if env.quick() else cw.text(), build="fast")
+    env.require_complete(res_f, "perturb/fast")
+    env.pmap(monitor, res_f.sessions, workload="perturb")
     cw = build_noncanonical_x25519(env, env.pick(12, 60))
     res2 = env.drive("noncanonical", cw.text())
     env.require_complete(res2, "noncanonical")
